@@ -45,6 +45,13 @@ fn plan_module(r: &mut Rng, dir: &str, k: usize, hostile: bool) -> ModPlan {
         spec.has_phdrs = true;
         spec.bias = 0;
     }
+    if hostile && Rng::new(r.0 ^ 0x3c6e_f372).chance(1, 3) {
+        // a note segment that ends in the middle of the build-id note
+        spec.build_id = Some(Rng::new(r.0 ^ 0x77).bytes(20));
+        spec.note_phdr = true;
+        spec.has_phdrs = true;
+        spec.note_cut = *Rng::new(r.0 ^ 0x78).pick(&[1usize, 8, 12, 21, 33]);
+    }
     let mut kind = *r.pick(&["whole", "whole", "split", "gap", "archive", "ro-nonzero", "rw", "notelf", "empty-id"]);
     // an executable image directly followed by the linker's reserved, inaccessible tail (folded into the module's
     // size but not into its system range) — side stream
@@ -65,7 +72,7 @@ fn plan_module(r: &mut Rng, dir: &str, k: usize, hostile: bool) -> ModPlan {
         ref_id = "none".to_string();
         ref_soname = "none".to_string();
     } else {
-        ref_id = built.build_id.as_ref().map(|v| if v.is_empty() { "empty".to_string() } else { hex(v) }).unwrap_or("none".into());
+        ref_id = if spec.note_cut > 0 { "-".to_string() } else { built.build_id.as_ref().map(|v| if v.is_empty() { "empty".to_string() } else { hex(v) }).unwrap_or("none".into()) };
         // (an image without program headers says nothing about where it is linked: with a non-zero bias its
         // section addresses cannot be related to the loaded bytes, so there is no reference answer from memory)
         ref_soname = if spec.soname_twice || spec.soname_at_strsz.is_some() || (spec.bias != 0 && !spec.has_phdrs) { "-".to_string() } else { built.soname.as_ref().map(|v| hex(v)).unwrap_or("none".into()) };
